@@ -1,4 +1,5 @@
 import OsloPolicy.Model.Eval
+import OsloPolicy.Model.Literal
 /-
 C05 — attribute checks compare a literal or credential path with the target value.
 `lit` (Python's `ast.literal_eval` then `str`) and `pyStr` of containers are parameters /
@@ -107,6 +108,73 @@ theorem decides (env : Env) (tgt) (creds : JVal) (k m : Str) (hwf : subst tgt m 
 theorem non_container_denies (path : List Str) (key : Str) (v : JVal) (m : Str)
     (h : ∀ kvs t, v ≠ .obj kvs t) : findInDict (key :: path) v m = false := by
   cases v <;> simp_all [findInDict]
+
+/-- what the partial literal model says about a dotted path of identifiers: not a literal -/
+theorem litKnown_path (k : Str) (hid : (splitDots k).all isIdent = true)
+    (hc : k ≠ "True".toList ∧ k ≠ "False".toList ∧ k ≠ "None".toList) : litKnown k = some none := by
+  obtain ⟨h1, h2, h3⟩ := hc
+  -- the first character is a letter or underscore
+  have hfirst : ∃ c r, k = c :: r ∧ isIdentStart c = true := by
+    cases k with
+    | nil => simp [splitDots, isIdent] at hid
+    | cons c r =>
+      refine ⟨c, r, rfl, ?_⟩
+      unfold splitDots at hid
+      split at hid
+      · simp [isIdent] at hid
+      · cases hsd : splitDots r with
+        | nil => simp [hsd, isIdent] at hid; exact hid
+        | cons h t => simp [hsd, isIdent] at hid; exact hid.1.1
+  obtain ⟨c, r, rfl, hc⟩ := hfirst
+  have hall : identStartChars.all (fun c => !nonZeroDigits.contains c && c != '0' && c != '-') = true := by decide
+  have hprop := List.all_eq_true.1 hall c (by simpa [isIdentStart] using hc)
+  simp only [Bool.and_eq_true, Bool.not_eq_true', bne_iff_ne, ne_eq] at hprop
+  obtain ⟨⟨hnz, hz⟩, hminus⟩ := hprop
+  have hnat : isPlainNat (c :: r) = false := by
+    unfold isPlainNat
+    split
+    · rename_i heq; simp at heq
+    · rename_i heq; simp only [List.cons.injEq] at heq; exact absurd heq.1 hz
+    · rename_i c' r' _ heq
+      simp only [List.cons.injEq] at heq
+      obtain ⟨rfl, rfl⟩ := heq
+      rw [hnz]; rfl
+  unfold litKnown
+  simp only [h1, h2, h3, or_self, ↓reduceIte, hnat, Bool.false_eq_true]
+  split
+  · rename_i heq; simp only [List.cons.injEq] at heq; exact absurd heq.1 hminus
+  · simp [hid]
+
+/-- **Closed form for attribute paths** (no `lit` parameter left): when the left side is a dotted
+path of identifiers, the check allows iff the path matches the credentials. -/
+theorem path_allow_iff (env : Env) (hsound : LitSound env) (tgt : List (Str × JVal)) (creds : JVal) (k m : Str)
+    (hid : (splitDots k).all isIdent = true)
+    (hc : k ≠ "True".toList ∧ k ≠ "False".toList ∧ k ≠ "None".toList) :
+    genericCheck env tgt creds k m = .ret true ↔
+      ∃ x, subst tgt m = .ok x ∧ Matches creds (splitDots k) x := by
+  have hl : env.lit k = none := hsound k none (litKnown_path k hid hc)
+  rw [allow_iff]
+  constructor
+  · rintro ⟨x, hx, (⟨s, hs, _⟩ | ⟨_, hm⟩)⟩
+    · rw [hl] at hs; cases hs
+    · exact ⟨x, hx, hm⟩
+  · rintro ⟨x, hx, hm⟩
+    exact ⟨x, hx, .inr ⟨hl, hm⟩⟩
+
+/-- **Closed form for the constants** `True`, `False`, `None`: compare with the constant's text. -/
+theorem constant_allow_iff (env : Env) (hsound : LitSound env) (tgt : List (Str × JVal)) (creds : JVal) (k m : Str)
+    (hk : k = "True".toList ∨ k = "False".toList ∨ k = "None".toList) :
+    genericCheck env tgt creds k m = .ret true ↔ subst tgt m = .ok k := by
+  have hl : env.lit k = some k := by
+    apply hsound
+    rcases hk with rfl | rfl | rfl <;> decide
+  rw [allow_iff]
+  constructor
+  · rintro ⟨x, hx, (⟨s, hs, rfl⟩ | ⟨hn, _⟩)⟩
+    · rw [hl] at hs; cases hs; exact hx
+    · rw [hl] at hn; cases hn
+  · intro hx
+    exact ⟨k, hx, .inl ⟨k, hl, rfl⟩⟩
 
 /-! Non-vacuity: `a.b` against `{"a": [{"b": 7}, {"b": 8}]}` matches "8" through the list. -/
 example : Matches (.obj [(['a'], .arr [.obj [(['b'], .int 7)] [], .obj [(['b'], .int 8)] []] [])] [])
